@@ -571,17 +571,30 @@ def typeName (t : Nat) : Str :=
   | some p => p.2
   | none => []
 
-/-- helpers.go apacheToCassandraType -/
-def apacheToCassandraType (t : Str) : Str :=
+/-- props/C05.fix-8.diff: each class name is translated where it stands; `cur` reversed -/
+def translateFields : Str → Str → Str
+  | [], cur => if cur.isEmpty then [] else typeName (apacheType cur.reverse)
+  | c :: r, cur =>
+    if c == 60 || c == 62 || c == 44 then
+      (if cur.isEmpty then [] else typeName (apacheType cur.reverse)) ++ c :: translateFields r []
+    else translateFields r (c :: cur)
+
+/-- helpers.go apacheToCassandraType (`fx = true`: with props/C05.fix-8.diff) -/
+def apacheToCassandraTypeFx (fx : Bool) (t : Str) : Str :=
   let t1 := replace t kAPACHE []
   let t2 := replace t1 [40] [60]
   let t3 := replace t2 [41] [62]
-  let t4 := (fields t3 []).foldl (fun acc typ => replace acc typ (typeName (apacheType typ))) t3
+  let t4 := if fx then translateFields t3 []
+            else (fields t3 []).foldl (fun acc typ => replace acc typ (typeName (apacheType typ))) t3
   replace t4 [44] kcommaSp
 
+def apacheToCassandraType (t : Str) : Str := apacheToCassandraTypeFx false t
+
 /-- metadata.go getTypeInfo -/
-def getTypeInfo (t : Str) : Out Ty :=
-  if kAPACHE.isPrefixOf t then getCassandraType (apacheToCassandraType t) else getCassandraType t
+def getTypeInfoFx (fx : Bool) (t : Str) : Out Ty :=
+  if kAPACHE.isPrefixOf t then getCassandraType (apacheToCassandraTypeFx fx t) else getCassandraType t
+
+def getTypeInfo (t : Str) : Out Ty := getTypeInfoFx false t
 
 /-! ### canonical rendering (driver) -/
 
